@@ -78,7 +78,8 @@ CSVROWS = [
     {"pattern": "COSTCO|AMAZON", "merchant": "NoSub", "category": "Shopping", "subcategory": ""},
 ]
 
-TXNS = R.all_txns(ctxs=R.CTX + [R.CTX_TWIN])
+# one more description whose last word looks like a location code (the statement entry point carries a location column)
+TXNS = R.all_txns(descs=R.DESCS + ["SHELL OIL WA"], ctxs=R.CTX + [R.CTX_TWIN])
 
 
 def bounds(tier):
@@ -136,13 +137,15 @@ def statement_results(p, seq):
     path = R.write_scratch("m.rules", text)
     rules, transforms = R.load_path(path)
     idx = [i for i, t in enumerate(TXNS) if t["date"] and t["source"] == "Amex" and t["field"]]
-    lines = ["Date,Description,Amount,Memo,Type"]
+    lines = ["Date,Description,Amount,Memo,Type,Location"]
     for i in idx:
         t = TXNS[i]
+        # a location cell that varies from row to row (it is no part of what decides merchant, category or subcategory)
+        loc = ["WA", "NY", ""][i % 3]
         lines.append(",".join([_dt.date.fromisoformat(t["date"]).strftime("%m/%d/%Y"), R.csv_quote(t["description"]), repr(t["amount"]),
-                               R.csv_quote(t["field"].get("memo", "")), R.csv_quote(t["field"].get("type", ""))]))
+                               R.csv_quote(t["field"].get("memo", "")), R.csv_quote(t["field"].get("type", "")), loc]))
     sp = R.write_scratch("stmt.csv", "\n".join(lines) + "\n")
-    spec = parse_format_string("{date:%m/%d/%Y},{description},{amount},{memo},{type}")
+    spec = parse_format_string("{date:%m/%d/%Y},{description},{amount},{memo},{type},{location}")
     txns = parse_generic_csv(sp, spec, rules, source_name="Amex", transforms=transforms)
     H.reset_state()
     if len(txns) != len(idx):
